@@ -41,7 +41,12 @@ pub struct Gen<'p> {
     calls_in_loops: bool,
     fresh: usize,
     budget: i32,
+    /// stay inside the common fragment of T5 (`Model/C01Resolve`): types `i32` / `bool`, no `/` `%`
+    frag: bool,
 }
+
+/// the types of the T5 fragment (`i32` twice: most values are integers)
+pub const FRAG_TYS: [STy; 3] = [STy::I32, STy::I32, STy::Bool];
 
 pub fn all_tys() -> Vec<STy> {
     let mut v = INTS.to_vec();
@@ -76,8 +81,8 @@ pub fn pins(e: &E) -> bool {
 }
 
 impl<'p> Gen<'p> {
-    fn any_ty(&mut self) -> STy { *self.p.pick(&all_tys()) }
-    fn int_ty(&mut self) -> STy { *self.p.pick(&INTS) }
+    fn any_ty(&mut self) -> STy { if self.frag { *self.p.pick(&FRAG_TYS) } else { *self.p.pick(&all_tys()) } }
+    fn int_ty(&mut self) -> STy { if self.frag { STy::I32 } else { *self.p.pick(&INTS) } }
 
     fn visible(&self) -> Vec<VarInfo> {
         let mut out: Vec<VarInfo> = vec![];
@@ -221,7 +226,7 @@ impl<'p> Gen<'p> {
         }
         match roll {
             0..=44 => {
-                let ops: &[Op] = if ty.is_float() { &ARITH[..4] } else { &ARITH };
+                let ops: &[Op] = if self.frag { &ARITH[..3] } else if ty.is_float() { &ARITH[..4] } else { &ARITH };
                 let op = *self.p.pick(ops);
                 let l = self.expr(ty, d, fixed);
                 let rf = fixed || pins(&l);
@@ -315,7 +320,7 @@ impl<'p> Gen<'p> {
         if vars.is_empty() { return self.let_stmt(depth); }
         let v = self.p.pick(&vars).clone();
         if (v.ty.is_int() || v.ty.is_float()) && self.p.chance(3, 5) {
-            let ops: &[Op] = if v.ty.is_float() { &ARITH[..4] } else { &ARITH };
+            let ops: &[Op] = if self.frag { &ARITH[..3] } else if v.ty.is_float() { &ARITH[..4] } else { &ARITH };
             let op = *self.p.pick(ops);
             let rhs = if matches!(op, Op::Div | Op::Mod) && self.p.chance(7, 10) {
                 self.nonzero_lit(v.ty, true)
@@ -417,8 +422,12 @@ pub struct Generated {
     pub ret: STy,
 }
 
-pub fn gen_program(p: &mut Prng) -> Generated {
-    let tys = all_tys();
+#[allow(dead_code)]
+pub fn gen_program(p: &mut Prng) -> Generated { gen_program_in(p, false) }
+
+/// `frag`: a program of the common fragment of T5 (types `i32` / `bool`, no `/` `%`)
+pub fn gen_program_in(p: &mut Prng, frag: bool) -> Generated {
+    let tys = if frag { FRAG_TYS.to_vec() } else { all_tys() };
     let arg_ty = *p.pick(&tys);
     let arity = 1 + p.below(3) as usize;
     let ret = *p.pick(&tys);
@@ -432,7 +441,7 @@ pub fn gen_program(p: &mut Prng) -> Generated {
     let mut recs: Vec<Sig> = vec![];
     if p.chance(2, 5) {
         let n = if p.chance(1, 2) { 1 } else { 2 };
-        let nt = *p.pick(&INTS);
+        let nt = if frag { STy::I32 } else { *p.pick(&INTS) };
         let t = *p.pick(&tys);
         for i in 0..n {
             let mut params = vec![("n".to_string(), nt), ("acc".to_string(), t)];
@@ -447,7 +456,7 @@ pub fn gen_program(p: &mut Prng) -> Generated {
         let mut g = Gen {
             p, scopes: vec![sig.params.iter().map(|(x, t)| VarInfo { name: x.clone(), ty: *t, assignable: true }).collect()],
             callable: helpers[i + 1..].to_vec(), ret_ty: sig.ret, loop_depth: 0, calls_in_loops: false,
-            fresh: 100 * (i + 1), budget: 40,
+            fresh: 100 * (i + 1), budget: 40, frag,
         };
         let depth = 1 + g.p.below(3) as u32;
         let body = body_of(&mut g, sig.ret, depth, 3);
@@ -462,7 +471,7 @@ pub fn gen_program(p: &mut Prng) -> Generated {
         let mut g = Gen {
             p, scopes: vec![sig.params.iter().enumerate().map(|(j, (x, t))| VarInfo { name: x.clone(), ty: *t, assignable: j > 0 }).collect()],
             callable: helpers.clone(), ret_ty: t, loop_depth: 0, calls_in_loops: false,
-            fresh: 500 + 100 * i, budget: 30,
+            fresh: 500 + 100 * i, budget: 30, frag,
         };
         let nvar = || E::Var("n".into(), nt);
         let zero = E::Lit { ty: nt, bits: 0, suffixed: g.p.chance(1, 2) };
@@ -499,7 +508,7 @@ pub fn gen_program(p: &mut Prng) -> Generated {
     callable.extend(recs.clone());
     let mut g = Gen {
         p, scopes: vec![params.iter().map(|(x, t)| VarInfo { name: x.clone(), ty: *t, assignable: true }).collect()],
-        callable, ret_ty: ret, loop_depth: 0, calls_in_loops: true, fresh: 0, budget: 70,
+        callable, ret_ty: ret, loop_depth: 0, calls_in_loops: true, fresh: 0, budget: 70, frag,
     };
     let depth = 2 + g.p.below(3) as u32;
     let body = body_of(&mut g, ret, depth, 4);
